@@ -39,7 +39,7 @@ def run(res, tier, seed):
     rng = random.Random(seed * 1000003 + 8)
     res.rule = RULE
     n_models = 400 if tier == "quick" else 5000
-    models = gen_valid(rng, n_models, res, constvar=0.08, int_leaves=0.45)
+    models = gen_valid(rng, n_models, res, constvar=0.08, int_leaves=0.45, wide=0.03)
     # an unnamed sub-proposition that a fixed leaf reduces to ONE free boolean which is also a direct child of its parent
     # (or comes up from a second such child), under a counting parent: the leaf must keep being counted once per occurrence
     for _ in range(60 if tier == "quick" else 700):
